@@ -25,6 +25,8 @@ import (
 	codectypes "github.com/cosmos/cosmos-sdk/codec/types"
 	sdk "github.com/cosmos/cosmos-sdk/types"
 	"github.com/cosmos/gogoproto/proto"
+	ethcommon "github.com/ethereum/go-ethereum/common"
+	ethtypes "github.com/ethereum/go-ethereum/core/types"
 	"github.com/palomachain/paloma/v2/zzverif/hist"
 	"github.com/palomachain/paloma/v2/zzverif/report"
 	"github.com/palomachain/paloma/v2/zzverif/world"
@@ -231,7 +233,12 @@ func run(r *report.Run, shard, nshards int, replayFile string) {
 		}
 	}
 	for _, l := range order {
-		for _, val := range hostile(l.Kind, r.Thorough()) {
+		vals := hostile(l.Kind, r.Thorough())
+		if l.Kind == "bytes" && strings.HasSuffix(l.Field, "SerializedReceipt") {
+			// well-formed but unusual receipts: the decoders accept them, the attesters must cope
+			vals = append(vals, "rcpt:anon-log-first", "rcpt:no-logs", "rcpt:status-0", "rcpt:log-no-data")
+		}
+		for _, val := range vals {
 			devs = append(devs, dev{MsgType: l.MsgType, Field: l.Field, Kind: l.Kind, Value: val, Mode: "first-block"})
 			if r.Thorough() {
 				devs = append(devs, dev{MsgType: l.MsgType, Field: l.Field, Kind: l.Kind, Value: val, Mode: "all"})
@@ -587,6 +594,14 @@ func mutate(v reflect.Value, path []string, val string) (ok bool) {
 		return true
 	case reflect.Slice:
 		if t.Elem().Kind() == reflect.Uint8 {
+			if strings.HasPrefix(val, "rcpt:") {
+				b, ok := receiptVariant(v.Bytes(), val)
+				if !ok {
+					return false
+				}
+				v.SetBytes(b)
+				return true
+			}
 			switch val {
 			case "nil":
 				v.Set(reflect.Zero(t))
@@ -624,6 +639,33 @@ func mutate(v reflect.Value, path []string, val string) (ok bool) {
 		return true
 	}
 	return false
+}
+
+// receiptVariant re-encodes a well-formed receipt with one structural peculiarity.
+func receiptVariant(raw []byte, val string) ([]byte, bool) {
+	rc := new(ethtypes.Receipt)
+	if err := rc.UnmarshalBinary(raw); err != nil {
+		return nil, false
+	}
+	switch val {
+	case "rcpt:anon-log-first":
+		// an anonymous event (LOG0: no topics) emitted before the others
+		rc.Logs = append([]*ethtypes.Log{{Address: ethcommon.HexToAddress("0x00000000000000000000000000000000000000ee"), Topics: []ethcommon.Hash{}, Data: []byte{1, 2, 3}}}, rc.Logs...)
+	case "rcpt:no-logs":
+		rc.Logs = nil
+	case "rcpt:status-0":
+		rc.Status = ethtypes.ReceiptStatusFailed
+	case "rcpt:log-no-data":
+		for _, l := range rc.Logs {
+			l.Data = nil
+		}
+	}
+	rc.Bloom = ethtypes.CreateBloom(ethtypes.Receipts{rc})
+	out, err := rc.MarshalBinary()
+	if err != nil {
+		return nil, false
+	}
+	return out, true
 }
 
 var _ = sort.Strings
